@@ -4,6 +4,7 @@ import (
 	"bytes"
 	"encoding/binary"
 	"fmt"
+	"sort"
 	"strings"
 
 	"golang.org/x/tools/go/ssa"
@@ -348,4 +349,120 @@ func ruleStoredValidated(c *Check, rule string, t *MergeTable) {
 		c.Ok(rule, t.Name+"/stored-validated", fmt.Sprintf("all %d successful paths with a stored value passed header.Parse's validation before using it", n), c.P.Pos(t.Fn.Pos()))
 	}
 	c.Floor(rule, n, 3, "successful paths with a stored value in "+t.Name)
+}
+
+// C14-R7 PUTBASIC-ON-FRESH: PutBasic writes the whole fixed part of a header,
+// including an extension count of zero. Applied to a value that was read from
+// LMDB it would disown extension blocks that are still in the value (readers
+// then take them for application bytes). Every call site must therefore pass a
+// buffer it owns: a fresh allocation or the iterator's scratch field — never
+// bytes obtained from an LMDB read. (Patching single fields of a stored header
+// in place, as migrate-timestamps does, leaves the count alone and is fine.)
+func rulePutBasicFresh(c *Check, rule string) {
+	var roots func(v ssa.Value, d int, seen map[ssa.Value]bool) []string
+	roots = func(v ssa.Value, d int, seen map[ssa.Value]bool) []string {
+		if v == nil || seen[v] || d > 10 {
+			return nil
+		}
+		seen[v] = true
+		switch x := v.(type) {
+		case *ssa.Const:
+			return nil
+		case *ssa.MakeSlice:
+			return []string{"fresh"}
+		case *ssa.Alloc:
+			out := []string{"fresh"}
+			if rs := x.Referrers(); rs != nil {
+				for _, r := range *rs {
+					if st, ok := r.(*ssa.Store); ok && st.Addr == ssa.Value(x) {
+						out = append(out, roots(st.Val, d+1, seen)...)
+					}
+				}
+			}
+			return out
+		case *ssa.Parameter:
+			return []string{"param:" + x.Name()}
+		case *ssa.FreeVar:
+			return []string{"free:" + x.Name()}
+		case *ssa.Global:
+			return []string{"global:" + x.Name()}
+		case *ssa.Slice:
+			return roots(x.X, d+1, seen)
+		case *ssa.Phi:
+			var out []string
+			for _, e := range x.Edges {
+				out = append(out, roots(e, d+1, seen)...)
+			}
+			return out
+		case *ssa.UnOp:
+			if fa, ok := x.X.(*ssa.FieldAddr); ok {
+				return []string{"field:" + fieldName(fa.X.Type(), fa.Field)}
+			}
+			return roots(x.X, d+1, seen)
+		case *ssa.FieldAddr:
+			return []string{"field:" + fieldName(x.X.Type(), x.Field)}
+		case *ssa.Extract:
+			return roots(x.Tuple, d+1, seen)
+		case *ssa.ChangeType:
+			return roots(x.X, d+1, seen)
+		case *ssa.Convert:
+			return roots(x.X, d+1, seen)
+		case *ssa.Call:
+			cc := x.Common()
+			if b, ok := cc.Value.(*ssa.Builtin); ok && b.Name() == "append" && len(cc.Args) > 0 {
+				return roots(cc.Args[0], d+1, seen)
+			}
+			if cc.IsInvoke() {
+				return []string{"call:invoke " + cc.Method.Name()}
+			}
+			if f := cc.StaticCallee(); f != nil {
+				return []string{"call:" + calleeName(f)}
+			}
+			return []string{"call:dynamic"}
+		}
+		return []string{fmt.Sprintf("other:%T", v)}
+	}
+	n, bad := 0, 0
+	var sites []string
+	for _, fn := range c.P.RepoFuncs() {
+		if fn.Blocks == nil || strings.Contains(QualName(fn), "_test") {
+			continue
+		}
+		if fn.Pos().IsValid() {
+			if f := fn.Prog.Fset.File(fn.Pos()); f != nil && strings.HasSuffix(f.Name(), "_test.go") {
+				continue
+			}
+		}
+		for _, b := range fn.Blocks {
+			for _, in := range b.Instrs {
+				call, ok := in.(*ssa.Call)
+				if !ok {
+					continue
+				}
+				cal := call.Common().StaticCallee()
+				if cal == nil || QualName(cal) != "lmdbenv/header.PutBasic" || len(call.Common().Args) == 0 {
+					continue
+				}
+				n++
+				name := QualName(fn)
+				sites = append(sites, name)
+				for _, r := range roots(call.Common().Args[0], 0, map[ssa.Value]bool{}) {
+					switch {
+					case r == "fresh", strings.HasPrefix(r, "field:"):
+					case strings.HasPrefix(r, "call:") && (strings.Contains(r, "lmdb.Txn).Get") || strings.Contains(r, "lmdb.Cursor).Get") || strings.Contains(r, "Scanner).Val") || strings.Contains(r, "LimitScanner).Val") || strings.Contains(r, "invoke")):
+						bad++
+						c.Bad(rule, name+"/putbasic-on-stored-value", "header.PutBasic is applied to bytes obtained from an LMDB read ("+r+"): it resets the extension count to zero while the extension blocks stay in the value, so the stored value no longer is header + application value", c.P.InstrPos(call), nil)
+					case strings.HasPrefix(r, "param:"), strings.HasPrefix(r, "free:"), strings.HasPrefix(r, "global:"), strings.HasPrefix(r, "call:"), strings.HasPrefix(r, "other:"):
+						bad++
+						c.Bad(rule, name+"/putbasic-buffer-origin", "header.PutBasic is applied to a buffer whose origin ("+r+") is not a fresh allocation or the caller's own scratch field", c.P.InstrPos(call), nil)
+					}
+				}
+			}
+		}
+	}
+	sort.Strings(sites)
+	if bad == 0 {
+		c.Ok(rule, "lmdbenv/header.PutBasic/fresh-buffer", fmt.Sprintf("%d call sites (%s): the buffer is a fresh allocation or the iterator's own scratch field at each of them, never bytes read from LMDB", n, strings.Join(sites, ", ")), "")
+	}
+	c.Floor(rule, n, 3, "PutBasic call sites")
 }
